@@ -1,6 +1,156 @@
-/-! Driver commands of the `Env` cluster.  `handle` returns `none` for commands that are not its own. -/
+import TbotVerif.Spec.Env
+/-! Driver commands of the `Env` cluster (C09).
+    case:  `<bash|ash> <chunk> <cwd> <prog token>*`  with prog tokens
+           `s:<name>:<value>`  `g:<name>`  `p:<pre,…>:<name>`  `c:<dir>`  `w`  `o:<letter>:<0|1>`  `O`
+           `e:<arg>`  `x:<pre,…>:<args,…>:<out>:<status>`  `!` (raise)  `[` / `[?` … `]` (subshell block,
+           `[?` = the block is wrapped in try/except)                       (all strings in hex)
+    obs:   one token per executed step `<kind>=<val>/<written>/<pieces>` and a final `end:<outcome>`;
+           val = `ok` | `s:<text>` | `f:<letters>` | `v:<value>` / `v:!` | `rc:<status>:<text>:<argv|!>` | `err:<tag>`
+    `env <case…> || <obs…>` replays the fragmentation found in the observation on the model;
+    `envwf <case…>` says whether the case is in the domain of the theorems (`Env.Case.wf`). -/
 namespace Driver.Env
+open _root_.Env
 
-def handle (_toks : List String) : Option String := none
+def splitAt2 (toks : List String) (sep : String) : List String × List String :=
+  (toks.takeWhile (· != sep), (toks.dropWhile (· != sep)).drop 1)
+
+def bytesList (s : String) : Option (List Bytes) := Wire.listOf Bytes.ofHex s
+
+def byte1 (s : String) : Option Byte :=
+  match Bytes.ofHex s with
+  | some [c] => some c
+  | _ => none
+
+def opOf (s : String) : Option Env.Op :=
+  match s.splitOn ":" with
+  | ["s", n, v] => do pure (.set (← Bytes.ofHex n) (← Wire.charsOf v))
+  | ["g", n] => (Bytes.ofHex n).map .get
+  | ["p", pre, n] => do pure (.probe (← bytesList pre) (← Bytes.ofHex n))
+  | ["c", d] => (Bytes.ofHex d).map .cd
+  | ["w"] => some .pwd
+  | ["o", c, b] => do pure (.setopt (← byte1 c) (← Wire.bool b))
+  | ["O"] => some .getopt
+  | ["e", a] => (Wire.charsOf a).map .echo
+  | ["x", pre, args, out, st] => do
+    pure (.run (← bytesList pre) (← bytesList args) (← Bytes.ofHex out) (← st.toNat?))
+  | _ => none
+
+/-- a sequence up to (not including) the closing `]` or the end of the input -/
+def progOf : Nat → List String → Option (Prog × List String)
+  | 0, _ => none
+  | _ + 1, [] => some (.done, [])
+  | f + 1, t :: ts =>
+    if t == "]" then some (.done, t :: ts)
+    else if t == "!" then
+      match ts with
+      | [] => some (.raise, [])
+      | u :: us => if u == "]" then some (.raise, u :: us) else none
+    else if t == "[" || t == "[?" then
+      match progOf f ts with
+      | some (body, u :: us) =>
+        if u == "]" then (progOf f us).map fun (k, rest) => (.sub (t == "[?") body k, rest) else none
+      | _ => none
+    else match opOf t with
+      | none => none
+      | some o => (progOf f ts).map fun (k, rest) => (.op o k, rest)
+
+def caseOf (toks : List String) : Option Env.Case :=
+  match toks with
+  | kind :: chunk :: cwd :: prog => do
+    let ash ← if kind == "ash" then some true else if kind == "bash" then some false else none
+    let (p, rest) ← progOf (prog.length + 1) prog
+    if !rest.isEmpty then none
+    pure { ash := ash, chunk := ← chunk.toNat?, cwd := ← Bytes.ofHex cwd, prog := p }
+  | _ => none
+
+def kinds : List (Kind × String) :=
+  [(.set, "set"), (.get, "get"), (.probe, "probe"), (.cd, "cd"), (.pwd, "pwd"), (.setopt, "setopt"),
+   (.getopt, "getopt"), (.echo, "echo"), (.run, "run"), (.enter, "enter"), (.exit, "exit"), (.raise, "raise")]
+
+def kindStr (k : Kind) : String := ((kinds.find? (·.1 == k)).map (·.2)).getD "?"
+def kindOfStr (s : String) : Option Kind := (kinds.find? (·.2 == s)).map (·.1)
+
+def valStr : Val → String
+  | .ok => "ok"
+  | .str s => s!"s:{Wire.chars s}"
+  | .opts l => s!"f:{Bytes.toHex l}"
+  | .env none => "v:!"
+  | .env (some v) => s!"v:{Bytes.toHex v}"
+  | .rc st out argv =>
+    s!"rc:{st}:{Wire.chars out}:" ++ (match argv with | none => "!" | some a => Wire.sepBy "," (a.map Bytes.toHex))
+  | .err t => s!"err:{t}"
+
+def valOfStr (s : String) : Option Val :=
+  match s.splitOn ":" with
+  | ["ok"] => some .ok
+  | ["s", t] => (Wire.charsOf t).map .str
+  | ["f", l] => (Bytes.ofHex l).map .opts
+  | ["v", v] => if v == "!" then some (.env none) else (Bytes.ofHex v).map (.env ∘ some)
+  | ["rc", st, out, argv] => do
+    let argv ← if argv == "!" then some none else (bytesList argv).map some
+    pure (.rc (← st.toNat?) (← Wire.charsOf out) argv)
+  | "err" :: rest => some (.err (":".intercalate rest))
+  | _ => none
+
+/-- steps whose wire traffic is not compared (it depends on the terminal size, on the shell's
+    version banner, on how often `wait_for_shell` had to ask) -/
+def unlogged (k : Kind) : Bool := k == .enter || k == .exit || k == .getopt || k == .raise
+
+def obsStr (o : Obs) : String :=
+  kindStr o.kind ++ "=" ++ valStr o.val ++ "/" ++
+    (if unlogged o.kind then "-/." else Bytes.toHex o.written ++ "/" ++ Wire.sepBy "," (o.pieces.map toString))
+
+def obsOf (s : String) : Option Obs :=
+  match s.splitOn "=" with
+  | [k, rest] =>
+    match rest.splitOn "/" with
+    | [v, wr, ps] => do
+      pure { kind := ← kindOfStr k, val := ← valOfStr v, written := ← Bytes.ofHex wr,
+             pieces := ← Wire.listOf String.toNat? ps }
+    | _ => none
+  | _ => none
+
+def outcomeStr : Outcome → String
+  | .normal => "end:normal"
+  | .raised t => s!"end:raised:{t}"
+
+def outcomeOf (s : String) : Option Outcome :=
+  match s.splitOn ":" with
+  | ["end", "normal"] => some .normal
+  | "end" :: "raised" :: rest => some (.raised (":".intercalate rest))
+  | _ => none
+
+def allObsOf (toks : List String) : Option (List Obs × Outcome) :=
+  match toks.reverse with
+  | [] => none
+  | last :: revInit => do pure (← revInit.reverse.mapM obsOf, ← outcomeOf last)
+
+def allObsStr (o : List Obs × Outcome) : String := " ".intercalate (o.1.map obsStr ++ [outcomeStr o.2])
+
+/-- the oracle of a replay: the piece sizes of every step that talks to the remote -/
+def oracleOf (obs : List Obs) : List (List Nat) := (obs.filter (·.kind != .raise)).map (·.pieces)
+
+def handle (toks : List String) : Option String :=
+  match toks with
+  | "env" :: rest =>
+    let (ct, ot) := splitAt2 rest "||"
+    some (match caseOf ct with
+    | none => "bad-op"
+    | some c =>
+      if ot.isEmpty then allObsStr (run c [])
+      else match allObsOf ot with
+        | some os => allObsStr (run c (oracleOf os.1))
+        | none => allObsStr (run c []))
+  | "envwf" :: rest =>
+    -- is the case in the domain of `C09.spec_holds`?
+    some (match caseOf rest with
+    | some c => if c.wf then "1" else "0"
+    | none => "bad-op")
+  | "spec" :: "C09" :: rest =>
+    let (ct, ot) := splitAt2 rest "||"
+    some (match caseOf ct, allObsOf ot with
+    | some c, some os => if Spec.C09 c os then "1" else "0"
+    | _, _ => "bad-op")
+  | _ => none
 
 end Driver.Env
